@@ -481,8 +481,8 @@ def _e2e(group):
                             found = {'pipeline': f'batch({n}) [{mode}]', 'input': items, 'expected': batch_spec(items, n), 'got': got}
         elif group == 'distinct_until_changed':
             for L in range(0, 5):
-                for items in itertools.product((0, 1, None, (1,)), repeat=L):
-                    items = list(items)
+                for items in itertools.product((0, 1, None, (1,), 'big'), repeat=L):
+                    items = [(int('1' + '0' * 20) if x == 'big' else x) for x in items]       # equal-but-not-identical big ints
                     for key in (None, lambda i: i if not isinstance(i, tuple) else i[0]):
                         got = run_mux(items, rs.ops.distinct_until_changed(key))
                         exp = distinct_until_changed_spec(items, key or (lambda i: i))
